@@ -510,6 +510,7 @@ func (st *solveState) infeasible() bool {
 
 // callFacts adds the postcondition facts of a call whose result is in the cone.
 func (st *solveState) callFacts(call *ssa.Call) {
+	st.ptrPostFacts(call)
 	if st.seenCall[call] && (st.okCall[call] || !st.callOK(call)) {
 		return
 	}
@@ -1284,6 +1285,9 @@ func (e *BE) ptrOf(v ssa.Value, depth int) ptrProv {
 				p.off = p.off.add(e.expand(x.Call.Args[1]))
 			}
 			return p
+		}
+		if _, isBuiltin := x.Call.Value.(*ssa.Builtin); !isBuiltin {
+			return e.ptrOfCall(x) // a helper with a pointer postcondition (bounds10.go)
 		}
 	}
 	return ptrProv{}
